@@ -349,10 +349,15 @@ func c01table(c *Ctx) {
 		child.SetContextKeys("rid", ctxKeyT{"uid"}) // context keys are no input of the rule: with a context that holds them, one that does not, or none at all
 		rootE.SetContextKeys("rid")
 		defL := mkRoot()
+		// the default logger may be a CHILD in a tree: the package-level functions gate by ITS level, whatever the level
+		// of its root is (the root sits at the opposite end: Always, or Off)
+		defRoot := mkRoot().Root()
+		defChild := defRoot.New("default-child")
+		defChild.SetWriter(w1).SetErrorWriter(w2)
 		kinds := []struct {
 			name string
 			l    slog.Logger
-		}{{"root-as-Logger", rootL}, {"root-as-Entry", rootE}, {"child", child}, {"default", defL}}
+		}{{"root-as-Logger", rootL}, {"root-as-Entry", rootE}, {"child", child}, {"default", defL}, {"default(a child of another logger)", defChild}}
 		savedDefault := slog.Default()
 		defer slog.SetDefault(savedDefault)
 
@@ -408,8 +413,15 @@ func c01table(c *Ctx) {
 					if L == slog.DebugLevel && !st.d {
 						is.SetDebugMode(false) // SetLevel(Debug) switched the sticky process-wide mode on; this history wants it off
 					}
-					if kd.name == "default" {
+					if strings.HasPrefix(kd.name, "default") {
 						slog.SetDefault(kd.l)
+					}
+					if kd.l == slog.Logger(defChild) {
+						if L == slog.OffLevel {
+							defRoot.SetLevel(slog.AlwaysLevel)
+						} else {
+							defRoot.SetLevel(slog.OffLevel)
+						}
 					}
 					// Enabled getters
 					for i, r := range sevs {
@@ -423,7 +435,7 @@ func c01table(c *Ctx) {
 						}
 					}
 					for _, e := range eps {
-						if e.pkg != (kd.name == "default") {
+						if e.pkg != strings.HasPrefix(kd.name, "default") {
 							continue
 						}
 						rs := []slog.Level{e.sev}
